@@ -830,6 +830,9 @@ def signature_of(cls, v):
         files = v["negative"]["files"]
     if v["kind"] == "case" and (v["case"].get("tag") or "").startswith("template:"):
         return cls + "/" + v["case"]["tag"]
+    if v["kind"] == "negative" and cls == "compiler_crash" and "ZZ_PROBE2" in (v["negative"].get("probe") or "") and \
+            "generator.rs" in v["detail"] and "unreachable" in v["detail"]:
+        return cls + "/constant_built_on_a_constant_with_an_undefined_operand"
     if files:
         if cls == "compiler_crash":
             structs = {}
